@@ -1,6 +1,6 @@
 /-
 C06 — The linear-dependency-aware solver is transparent and reuses earlier solutions.
-Property theorems ONLY (helper lemmas: `Lemmas/LDAS.lean`, `Lemmas/LDASInv.lean`).
+Property theorems ONLY (helper lemmas: `Lemmas/LDAS.lean`, `Lemmas/LDASInv.lean`, `Lemmas/LDASReuse.lean`).
 
 Model: `LA/LDAS.lean` (state machine of `LDAWrapper` + `get_diagonal_indices`, code as repaired).
 Scalars: any field `α` with the operations record `c : Cfg α` satisfying `Laws c` (conjugation is an
@@ -9,6 +9,7 @@ External contract: the wrapped solver `inner A adj b x0` returns an exact soluti
 (`adj = false`) resp. `Aᴴ x = b` (`adj = true`) — `InnerOK`.
 -/
 import PymotoVerif.Lemmas.LDASWitness
+import PymotoVerif.Lemmas.LDASReuse
 import Mathlib.LinearAlgebra.Matrix.Notation
 import Mathlib.Tactic.NormNum
 import Mathlib.Tactic.FinCases
@@ -138,9 +139,11 @@ theorem ldas_update_forgets {c : Cfg α} (s₁ s₂ : State n α) (hI₁ : Inv c
 
 /-! ## totality -/
 
-/-- `solve` returns a value whenever a fresh wrapper for the same matrix would (out-of-place dtype
-    promotion, `strictCast = false`): success depends only on `trans` and on a matrix being present -/
-theorem ldas_total {k : Nat} {c : Cfg α} (hc : c.strictCast = false)
+/-- `solve` returns a value whenever a fresh wrapper for the same matrix would: success depends only on
+    `trans` and on a matrix being present, never on what the databases hold (before repair 123ee8f the
+    in-place subtractions `badd -= beta*b` / `x0_loc -= outer(x, beta)` made this false for mixed real /
+    complex histories; regression witness corpus/defects/c06_mixed_dtype_inplace.py) -/
+theorem ldas_total {k : Nat} {c : Cfg α}
     (inner : Mat n α → Bool → Vec n α → Option (Vec n α) → Vec n α) (s fresh : State n α)
     (hA : fresh.A = s.A) (rhs : Blk n k α) (rhsC : Bool) (x0 : Option (Blk n k α × Bool)) (tr : Trans)
     (hf : ∃ r, solve c inner fresh rhs rhsC x0 tr = .ok r) : ∃ r, solve c inner s rhs rhsC x0 tr = .ok r := by
@@ -155,67 +158,56 @@ theorem ldas_total {k : Nat} {c : Cfg α} (hc : c.strictCast = false)
     generalize (if conjMode s tr = true then memoB (cjB c rhs) else rhs) = rhs'
     by_cases hadj : adjointMode s tr = true
     · simp only [hadj, if_true]
-      obtain ⟨o, ho⟩ := doSolve_total hc (inner A true) (adjM c A) s.Acplx s.diag s.dbAdj rhs' rhsC x0
+      obtain ⟨o, ho⟩ := doSolve_total (inner A true) (adjM c A) s.Acplx s.diag s.dbAdj rhs' rhsC x0
       rw [ho]; exact ⟨_, rfl⟩
     · simp only [hadj]
-      obtain ⟨o, ho⟩ := doSolve_total hc (inner A false) A s.Acplx s.diag s.db rhs' rhsC x0
+      obtain ⟨o, ho⟩ := doSolve_total (inner A false) A s.Acplx s.diag s.db rhs' rhsC x0
       rw [ho]; exact ⟨_, rfl⟩
 
-/-- OPEN DEFECT of the pinned tree (corpus/defects/c06_mixed_dtype_inplace.py), negation at the witness:
-    with the in-place subtractions as written (`strictCast = true`) totality FAILS — real 2×2 matrix,
-    `solve([1,0] as complex dtype)` succeeds, then `solve([0,1])` raises although a fresh wrapper answers
-    it; with out-of-place promotion (`strictCast = false`, the variant `ldas_total` is about) it returns -/
-example : firstOk (cfgQ true) = true ∧ freshOk (cfgQ true) = true ∧ secondOk (cfgQ true) = false ∧
-    secondOk (cfgQ false) = true := by
-  decide +kernel
+/-! ## orthogonality component of the invariant, and reuse -/
 
-/-! ## reuse (partial) -/
+/-- a new wrapper has (trivially) orthogonal databases -/
+theorem inv_orth_init {c : Cfg α} (userSym userHerm : Option Bool) : OrthInv c (init userSym userHerm : State n α) :=
+  ⟨orthDb_nil c _, orthDb_nil c _⟩
 
-/- Full statement (NOT proved here): if every column of the effective right-hand side, restricted to the
-   non-diagonal index set, lies in the span of the stored `b`'s of the selected database (which are
-   mutually orthogonal: the append loop orthogonalises), and no stored pair is skipped by the dtype
-   rule (`A` complex, or the right-hand side complex, or all stored pairs real), then
-   `(solve …).called = false`.  Missing: the orthogonality component of the invariant and the
-   Gram–Schmidt lemma "projection onto an orthogonal family reproduces every element of its span".
-   Proved: the second half of the chain — a zero remaining right-hand side never reaches the inner
-   solver, for any order `lt` in which `tol²‖b‖² < 0` is false. -/
-theorem ldas_reuse_partial {k : Nat} {c : Cfg α} (hL : Laws c) (hlt : ∀ v : Vec n α, c.lt (c.tol2 * nsq c v) 0 = false)
+theorem inv_orth_update {c : Cfg α} (s : State n α) (A : Mat n α) (cplx : Bool) : OrthInv c (update c s A cplx) :=
+  ⟨orthDb_nil c _, orthDb_nil c _⟩
+
+/-- `solve` keeps both databases orthogonal (each later `b` is orthogonal to every earlier one) and free of
+    zero-norm vectors: the append loop orthogonalises and skips a remainder with `bnrm ≤ tol·bnrm0` -/
+theorem inv_orth_solve {k : Nat} {c : Cfg α} (hlt : LtOK c n)
+    (inner : Mat n α → Bool → Vec n α → Option (Vec n α) → Vec n α) (s : State n α) (hO : OrthInv c s)
+    (rhs : Blk n k α) (rhsC : Bool) (x0 : Option (Blk n k α × Bool)) (tr : Trans)
+    {s' : State n α} {o : SolveOut n k α} (h : solve c inner s rhs rhsC x0 tr = .ok (s', o)) : OrthInv c s' :=
+  solve_orth hlt inner s hO rhs rhsC x0 tr h
+
+/-- REUSE: if every column of the effective right-hand side (conjugated as the mode table says), restricted to
+    the non-diagonal index set, is a linear combination of the right-hand sides stored for the current matrix
+    in the database this call uses, and no stored pair is skipped by the dtype rule (the matrix or the
+    right-hand side is complex, or the stored pairs are real), then the inner solver is NOT called.
+    (The decoupled entries never matter: they are solved by division.) -/
+theorem ldas_reuse {k : Nat} {c : Cfg α} (hL : Laws c) (hlt : LtOK c n)
+    (inner : Mat n α → Bool → Vec n α → Option (Vec n α) → Vec n α) (s : State n α) (hI : Inv c s) (hO : OrthInv c s)
+    (rhs : Blk n k α) (rhsC : Bool) (x0 : Option (Blk n k α × Bool)) (tr : Trans)
+    (hns : ∀ q ∈ selDb s tr, (q.cplx && !(s.Acplx || rhsC)) = false)
+    (hspan : ∀ j, SpanL (selDb s tr) (maskOff s.diag (effRhs c s tr rhs j)))
+    {s' : State n α} {o : SolveOut n k α} (h : solve c inner s rhs rhsC x0 tr = .ok (s', o)) : o.called = false :=
+  solve_reuse hL hlt inner s hI hO rhs rhsC x0 tr hns hspan h
+
+/-- second half of the chain on its own: whenever the reconstruction leaves a zero remaining right-hand side
+    (in particular for a zero right-hand side), the inner solver is not reached -/
+theorem ldas_zero_remainder_free {k : Nat} {c : Cfg α} (hL : Laws c) (hlt : LtOK c n)
     {M : Mat n α} {Mc : Bool} {d : Fin n → Bool} {db : List (Pair n α)} (hd : MaskOK M d) (hdb : DbOK M d db)
     (hreal : Mc = false → RealM c M) (solveFn : Vec n α → Option (Vec n α) → Vec n α)
     (rhs : Blk n k α) (rhsC : Bool) (x0 : Option (Blk n k α × Bool))
     (hzero : ∀ j, (reconstruct c d (Mc || rhsC) db (fun j => maskOff d (rhs j), fun j => diagSol M d (rhs j))).1 j = 0)
-    {o : SolveOut n k α} (h : doSolve c solveFn M Mc d db rhs rhsC x0 = .ok o) : o.called = false := by
-  have hr : RecOK M d rhs (reconstruct c d (Mc || rhsC) db
-      (fun j => maskOff d (rhs j), fun j => diagSol M d (rhs j))) := by
-    apply reconstruct_ok hL (fun hrc => hreal (by simpa using (Bool.or_eq_false_iff.mp hrc).1)) db hdb
-    intro j
-    exact ⟨diag_step hd (rhs j), fun i hi => by simp [maskOff, hi]⟩
-  have hno : ∀ j, exceeds c (M *ᵥ (reconstruct c d (Mc || rhsC) db
-      (fun j => maskOff d (rhs j), fun j => diagSol M d (rhs j))).2 j - rhs j) (rhs j) = false := by
-    intro j
-    have h1 := (hr j).1
-    rw [hzero j, add_zero] at h1
-    rw [h1, sub_self]
-    unfold exceeds
-    have : nsq c (0 : Vec n α) = 0 := by simp [nsq]
-    rw [this]
-    exact hlt _
-  unfold doSolve at h
-  simp only [memo_eq, memoB_eq] at h
-  split_ifs at h with hany
-  · exfalso
-    rw [List.any_eq_true] at hany
-    obtain ⟨j, _, hj⟩ := hany
-    rw [hno j] at hj
-    exact Bool.false_ne_true hj
-  · injection h with h
-    subst h
-    rfl
+    {o : SolveOut n k α} (h : doSolve c solveFn M Mc d db rhs rhsC x0 = .ok o) : o.called = false :=
+  doSolve_zero_rem hL hlt hd hdb hreal solveFn rhs rhsC x0 hzero h
 
 /-! ## non-vacuity: a concrete instance of every hypothesis (ℚ, `cj = id`) -/
 
 /-- the contract hypothesis is satisfiable -/
-example : InnerOK (cfgQ false) inner2 A2 := by
+example : InnerOK cfgQ inner2 A2 := by
   intro b x0
   constructor
   · funext i
@@ -225,7 +217,7 @@ example : InnerOK (cfgQ false) inner2 A2 := by
 
 /-- the history hypothesis is satisfiable by a history with an update, a solve in every mode, a repeated
     and a zero right-hand side -/
-example : HistOK (cfgQ false) inner2 (init none none)
+example : HistOK cfgQ inner2 (init none none)
     [.update A2 false, .solve 1 (fun _ => ![1, 2]) false none .N, .solve 1 (fun _ => ![1, 2]) false none .T,
      .solve 2 (fun j => if j = 0 then ![2, 4] else ![0, 0]) false none .H] := by
   refine ⟨⟨fun h => by simp [init] at h, fun h => by simp [init] at h, fun _ _ _ => rfl⟩, ?_, trivial⟩
@@ -236,10 +228,19 @@ example : HistOK (cfgQ false) inner2 (init none none)
   · funext i
     fin_cases i <;> simp [inner2, A2, adjM, cfgQ, Matrix.mulVec, dotProduct, Fin.sum_univ_two]
 
-/-- the order hypothesis of `ldas_reuse_partial` holds at ℚ -/
-example (v : Vec 2 ℚ) : (cfgQ false).lt ((cfgQ false).tol2 * nsq (cfgQ false) v) 0 = false := by
-  simp only [cfgQ, nsq, decide_eq_false_iff_not, not_lt, id]
+/-- the order hypothesis `LtOK` holds at ℚ -/
+example : LtOK cfgQ 2 := by
+  intro d v
+  simp only [cfgQ, ipSel, decide_eq_false_iff_not, not_lt, id]
   apply mul_nonneg (by norm_num)
-  exact Finset.sum_nonneg fun i _ => mul_self_nonneg (v i)
+  apply Finset.sum_nonneg
+  intro i _
+  split_ifs
+  · exact le_refl 0
+  · exact mul_self_nonneg (v i)
+
+/-- the span hypothesis of `ldas_reuse` is satisfiable non-trivially: `3·b` lies in the span of a database `[⟨x, b⟩]` -/
+example (x b : Vec 2 ℚ) : SpanL [({ x := x, b := b, cplx := false } : Pair 2 ℚ)] (fun i => 3 * b i) :=
+  ⟨3, 0, rfl, by funext i; simp⟩
 
 end PymotoVerif.C06
